@@ -32,6 +32,9 @@ type Connection struct {
 	// Buffers encrypted bytes read from the connection across calls
 	encrypted *bufio.Reader
 
+	// Bytes which were read unencrypted while the session switched to encryption
+	pending []byte
+
 	// Serializes writes because responses and notifications are written by different goroutines
 	writeMutex sync.Mutex
 }
@@ -79,8 +82,13 @@ func (con *Connection) DecryptedRead(b []byte) (int, error) {
 
 	for con.readBuffer == nil {
 		if con.encrypted == nil {
+			var r io.Reader = con.connection
+			if len(con.pending) > 0 {
+				r = io.MultiReader(bytes.NewReader(con.pending), con.connection)
+				con.pending = nil
+			}
 			// The buffered reader is kept to not lose bytes which were read ahead
-			con.encrypted = bufio.NewReaderSize(con.connection, 2*(crypto.PacketLengthMax+18))
+			con.encrypted = bufio.NewReaderSize(r, 2*(crypto.PacketLengthMax+18))
 		}
 
 		// Wait until one frame [length (2 bytes)] [data] [auth (16 bytes)] is available.
@@ -137,7 +145,15 @@ func (con *Connection) Write(b []byte) (int, error) {
 		return con.EncryptedWrite(b)
 	}
 
-	return con.connection.Write(b)
+	n, err := con.connection.Write(b)
+
+	// The response which finishes pair verify is sent unencrypted.
+	// All following data is encrypted.
+	if s, ok := con.context.GetSessionForConnection(con.connection).(*session); ok {
+		s.activateNextCryptographer()
+	}
+
+	return n, err
 }
 
 // Read reads bytes from the connection. The read bytes are decrypted when possible.
@@ -147,7 +163,15 @@ func (con *Connection) Read(b []byte) (int, error) {
 		return con.DecryptedRead(b)
 	}
 
-	return con.connection.Read(b)
+	n, err := con.connection.Read(b)
+	if n > 0 && con.getDecrypter() != nil {
+		// The session switched to encryption while this read was pending.
+		// The bytes are the beginning of the first encrypted frame.
+		con.pending = append(con.pending, b[:n]...)
+		return con.DecryptedRead(b)
+	}
+
+	return n, err
 }
 
 // Close closes the connection and deletes the related session from the context.
